@@ -22,6 +22,7 @@ class Harness:
     assumptions: List[str] = field(default_factory=list)
     encodes: List[str] = field(default_factory=list)  # qualified names of real functions driven
     per_path_timeout: Dict[str, float] = field(default_factory=lambda: {"quick": 15, "thorough": 40})
+    tiers: tuple = ("quick", "thorough")  # tiers in which the harness runs
 
     def parts_for(self, tier):
         return self.parts.get(tier) or self.parts.get("quick") or [None]
